@@ -41,6 +41,23 @@ RECORDED_COMPOSITE_FAMILIES = tuple("composite_retained:" + f for f in (
     "args:bytes", "args:words", "args:negative-offset", "instructions", "flag:use-my-metrics",
     "flag:round-xy-to-grid", "flag:unscaled-component-offset"))
 
+# charstring re-encoding: the boundary glyphs of the synthesized CFF-family fonts (c07_subset/syn.rs) must have been
+# retained, with their source outline delivered, on every path that rebuilds charstrings
+KEY_VALUES = ["-32768", "-1132", "-1131", "-108", "-107", "107", "108", "1131", "1132", "32767", "fixed-16.16"]
+BOUNDARY_FAMILIES = ["moves", "rlineto", "hvlineto", "rrcurveto", "hhcurveto", "vvcurveto", "hvcurveto", "vhcurveto", "rcurveline",
+                     "rlinecurve", "flex", "hflex", "hflex1", "flex1", "stems", "stemhm", "hintmask", "fixed", "extremes", "long-form"]
+SUBR_FAMILIES = ["subr-arguments", "subr-body", "gsubr-body"]
+BOUNDARY_PATHS = {
+    "cff2-to-cff": BOUNDARY_FAMILIES,                     # CFF2 -> name-keyed CFF: every operand is re-encoded (StackValue writer)
+    "cff2-to-cid": BOUNDARY_FAMILIES,                     # CFF2 -> CID-keyed CFF (several Font DICTs / more than 255 glyphs)
+    "cff-subset": BOUNDARY_FAMILIES + SUBR_FAMILIES,      # name-keyed CFF: charstrings and used subroutines into rebuilt INDEXes
+    "type1-to-cid": BOUNDARY_FAMILIES + SUBR_FAMILIES,    # name-keyed CFF, more than 255 glyphs -> CID-keyed
+    "cid-subset": BOUNDARY_FAMILIES + SUBR_FAMILIES,      # CID-keyed CFF: FDSelect / Font DICTs / local subroutines rebuilt
+}
+RECORDED_BOUNDARY_KEYS = tuple(
+    ["boundary:%s:value:%s" % (p, v) for p in BOUNDARY_PATHS for v in KEY_VALUES] +
+    ["boundary:%s:family:%s" % (p, f) for p, fams in BOUNDARY_PATHS.items() for f in fams])
+
 CONFIGS = {
     "quick": [("MC_Subset_quick.cfg", 25)],
     "thorough": [("MC_Subset_thorough_a.cfg", 60), ("MC_Subset_thorough_b.cfg", 60)],
@@ -273,7 +290,7 @@ def _plant_trace(rec_trace, families=4):
     """Corrupted copies of recorded events; each must be rejected with the class named, the untouched copy and an
     alternative closure order accepted. Several families (from different cases), because on a broken tree the
     recorded events themselves may not conform: a family whose untouched copy is rejected proves nothing."""
-    glyphs, subs = [], []
+    glyphs, subs, conv = [], [], []
     with open(rec_trace) as f:
         last_sub = None
         for ln in f:
@@ -287,7 +304,12 @@ def _plant_trace(rec_trace, families=4):
                     and len(e["o"]["out"]["cmds"]) > 3 and e["o"]["isrc"]["kind"] == "simple" and e["o"]["iout"]["kind"] == "simple" \
                     and all(g[1]["case"].split("|")[0] != e["case"].split("|")[0] for g in glyphs):
                 glyphs.append((last_sub, e))
-            if len(glyphs) >= families and len(subs) >= families:
+            elif len(conv) < families and e["a"]["kind"] == "cff2" and e["o"]["src"]["ok"] and e["o"]["out"]["ok"] \
+                    and any(c[0] in (2, 3, 4) for c in e["o"]["out"]["cmds"]) \
+                    and all(g[1]["case"].split("|")[0] != e["case"].split("|")[0] for g in conv):
+                # a glyph that went through the CFF2 -> CFF charstring conversion
+                conv.append((last_sub, e))
+            if len(glyphs) >= families and len(subs) >= families and len(conv) >= families:
                 break
     if not glyphs or not subs:
         raise vlib.ToolError("self-check: no suitable recorded events (glyph=%d subset=%d)" % (len(glyphs), len(subs)))
@@ -322,6 +344,17 @@ def _plant_trace(rec_trace, families=4):
         e = cp(ge); e["o"]["out"] = {"ok": False, "err": "planted", "cmds": []}
         add(fam, "selftest-g%d-outline-lost" % n, gs, e, "outline-lost")
         fams.append(fam)
+    for n, (gs, ge) in enumerate(conv):
+        fam = {"type": "converted-glyph", "base": "selftest-c%d-base" % n, "want": {}}
+        add(fam, fam["base"], gs, ge, None)
+        k = next(i for i, c in enumerate(ge["o"]["out"]["cmds"]) if c[0] in (2, 3, 4))     # a line or a curve
+        e = cp(ge); e["o"]["out"]["cmds"][k][-1] += 1
+        add(fam, "selftest-c%d-outline" % n, gs, e, "outline")
+        e = cp(ge); del e["o"]["out"]["cmds"][k]
+        add(fam, "selftest-c%d-outline-shorter" % n, gs, e, "outline")
+        e = cp(ge); e["o"]["out"] = {"ok": False, "err": "planted", "cmds": []}
+        add(fam, "selftest-c%d-outline-lost" % n, gs, e, "outline-lost")
+        fams.append(fam)
     for n, sub in enumerate(subs):
         fam = {"type": "subset", "base": "selftest-s%d-base" % n, "want": {}}
         add(fam, fam["base"], sub, None, None)
@@ -352,7 +385,9 @@ def _eval_selfcheck(fams, mism, have_violations):
         if m["case"].startswith("selftest-"):
             seen.setdefault(m["case"], set()).update(m["class"])
     verdict = {}
-    for typ in ("glyph", "subset"):
+    for typ in ("glyph", "subset", "converted-glyph"):
+        if not any(f["type"] == typ for f in fams):
+            raise vlib.ToolError("binding self-check: no recorded event to build a %s family from" % typ)
         valid = [f for f in fams if f["type"] == typ and f["base"] not in seen]
         if not valid:
             if have_violations:
@@ -404,7 +439,7 @@ def run(ctx):
     for k in ("fonts:glyf", "fonts:cff", "fonts:cid", "fonts:cff2", "fonts:cff_with_subroutines", "fonts:cid_with_subroutines",
               "rewrapped_woff", "rewrapped_woff2", "type1_converted_to_cid", "pulled_in_components",
               "glyphs_old_id_past_numberOfHMetrics", "ok:glyf:prince", "ok:cff:prince", "fonts:syn-cff2", "fonts:syn-cid") \
-            + RECORDED_COMPOSITE_FAMILIES:
+            + RECORDED_COMPOSITE_FAMILIES + RECORDED_BOUNDARY_KEYS:
         if tally.get(k, 0) == 0:
             raise vlib.ToolError("recording is vacuous for %s" % k)
 
